@@ -16,9 +16,11 @@ using namespace SimTK;
 
 struct Rec { std::string tag; std::vector<double> v; };
 static std::vector<Rec> g_recs;
+static int g_exitComm = -1; static double g_exitLow = 0, g_exitHigh = 0;   // last C19.exit record (hooks present only)
 static void sinkFn(const char* tag, int n, const double* v) {
     static const bool live = getenv("C19_LIVE") != 0;
     if (live) { fprintf(stderr, "T %s", tag); for (int i = 0; i < n; ++i) fprintf(stderr, " %a", v[i]); fprintf(stderr, "\n"); }
+    if (!strcmp(tag, "C19.exit") && n >= 7) { g_exitComm = (int)v[0]; g_exitLow = v[5]; g_exitHigh = v[6]; }
     if (g_recs.size() > 200000) return;      // a runaway loop inside stepTo must not exhaust memory
     Rec r; r.tag = tag; r.v.assign(v, v + n); g_recs.push_back(r);
 }
@@ -200,6 +202,7 @@ int main(int argc, char** argv) {
         catch (const std::exception& e) { printf("INITFAIL\nEND\n"); continue; }
         const Real fin = tFinal > 0 ? tFinal : Infinity;
         Integrator::SuccessfulStepStatus st;
+        g_exitComm = -1;
 
         if (mode == "w711") {
             // DESIGN 7.11: lower the scheduled-event time below the time already advanced to
@@ -271,6 +274,12 @@ int main(int argc, char** argv) {
                 else sched = std::max(sched == Infinity ? adv : sched, adv) + 0.02 + R.u()*R.u();
             }
             if (R.p(0.08)) report = std::max(std::max(sched, adv), t);   // coincident report and scheduled event
+            // boundary of the case split "report due before tLow": an event has been localized but not reported yet
+            // (known only through the hooks): ask for a report exactly at tLow, or between now and tLow
+            if (kind != 8 && g_exitComm == 1 && g_exitLow >= t) {
+                int o = R.k(4);
+                if (o <= 1) report = g_exitLow; else if (o == 2) report = t + R.u()*(g_exitLow - t);
+            }
             if (report < t) report = t;
             if (sched < adv) sched = adv;
             // never ask for an unbounded integration
